@@ -19,13 +19,22 @@ rm -f $demo
 suite=$(go test -vet=off -count=1 ./... 2>&1 | grep -v "no test files" | tr '\n' ' ')
 git checkout -q -- .
 echo "demo without: $r_without"; echo "demo with: $r_with"; echo "suite with: $suite"
-# run the check against /repo with the change applied
-cd /repo && git apply $m/patch.diff || { echo "cannot apply to /repo"; exit 2; }
+# run the check against the tree with the change applied. By default this is the
+# mutant's own scratch worktree (same commit as /repo) so that several mutants can be
+# examined while other work goes on; with MUTANT_ON_REPO=1 the patch is applied to
+# /repo itself (git -C /repo apply) and undone straight afterwards.
 t0=$(date +%s)
-chk=$(cd /verif && timeout 1500 bash check.sh $prop $tier 2>&1 | grep -v "^gosym: [0-9]*s" | tail -12)
-code=$?
+if [ -n "$MUTANT_ON_REPO" ]; then
+  cd /repo && git apply $m/patch.diff || { echo "cannot apply to /repo"; exit 2; }
+  chk=$(cd /verif && GOSYM_OUT=/tmp/mutant-evidence-$prop-$n.json timeout 1800 bash check.sh $prop $tier 2>&1 | grep -v "^gosym: [0-9]*s" | tail -12)
+  git -C /repo checkout -- .
+else
+  cd $wt && git apply $m/patch.diff
+  chk=$(cd /verif && GOSYM_REPO=$wt GOSYM_OUT=/tmp/mutant-evidence-$prop-$n.json timeout 1800 bash check.sh $prop $tier 2>&1 | grep -v "^gosym: [0-9]*s" | tail -12)
+  git -C $wt checkout -q -- .
+fi
 t1=$(date +%s)
-git -C /repo checkout -- .
+rm -f /tmp/mutant-evidence-$prop-$n.json
 echo "$chk"
 cp $m/patch.diff $out/patch.diff; cp $m/demo_test.go.txt $out/demo_test.go.txt; cp $m/README.md $out/README.md 2>/dev/null
 python3 - "$prop" "$n" "$dir" "$re" "$r_without" "$r_with" "$suite" "$chk" "$((t1-t0))" "$tier" > $out/meta.json <<'PY'
